@@ -324,11 +324,9 @@ func init() {
 			defer pool.Close()
 			quick := c.Tier == "quick"
 			maxLen := 4
-			tripleLen := 3
+			tripleLen := 4
 			adjLen := 3
-			if !quick {
-				tripleLen = 4
-			}
+			_ = quick
 			nk := len(c15Keys(maxLen))
 			nt := len(c15Keys(tripleLen))
 			nadj := len(c15KeysOf(c15UsersOver(c15AdjAlpha, adjLen)))
@@ -391,7 +389,7 @@ func init() {
 			c.Coverage["comparers"] = harness.ComparerNames
 			c.SetExhaustive(exh && done == len(tasks))
 			c.Sample(map[string]any{"user_keys": []string{"", "\\x00", "a", "\\xff", "\\x00a", "a\\xff\\xff"}, "seqs": c15Seqs, "kinds": []string{"del", "val"}})
-			c.Coverage["rule"] = "states = internal keys x comparers (all strings over {0x00,'a',0xff} of length <=4 x seq {0,1,2,2^56-1} x {del,val} = 968 keys, 5 comparers; plus, for the pair and separator laws, a second universe of all strings over {0x00,0x01,'a','b',0xfe,0xff} of length <=3 (2072 keys) - neighbouring bytes and the 0xff ceiling, where shortening flips between possible and impossible); transitions = individual law evaluations: antisymmetry / identity / user-key-major newest-first / probe placement on all ordered pairs, transitivity on all triples of the length<=3 universe (thorough: length<=4), a<=Separator(a,b)<b and Successor(b)>=b on all ordered pairs for the internal and the user comparers, and Find of every stored key in every table of <=4 one-entry blocks over two 24-key sub-universes, one with neighbouring bytes (index keys are the shortened separators)"
+			c.Coverage["rule"] = "states = internal keys x comparers (all strings over {0x00,'a',0xff} of length <=4 x seq {0,1,2,2^56-1} x {del,val} = 968 keys, 5 comparers; plus, for the pair and separator laws, a second universe of all strings over {0x00,0x01,'a','b',0xfe,0xff} of length <=3 (2072 keys) - neighbouring bytes and the 0xff ceiling, where shortening flips between possible and impossible); transitions = individual law evaluations: antisymmetry / identity / user-key-major newest-first / probe placement on all ordered pairs, transitivity on all triples of the 968-key universe, a<=Separator(a,b)<b and Successor(b)>=b on all ordered pairs for the internal and the user comparers, and Find of every stored key in every table of <=4 one-entry blocks over two 24-key sub-universes, one with neighbouring bytes (index keys are the shortened separators)"
 			c.Assume = []string{"the five comparers satisfy the documented Comparer contract (their Separator/Successor laws are checked too)"}
 		},
 	})
